@@ -1,3 +1,5 @@
+//go:build verif && (all || c32)
+
 package main
 
 import (
